@@ -24,7 +24,7 @@ Open Scope Z_scope.
 (* success => well formed: labels defined at most once, every label an operand mentions is
    declared in the scope (before or after its use), every operand evaluates -- so every macro
    it invokes exists with enough arguments and no divisor is zero -- and fits its push *)
-Theorem C13_success_implies_well_formed_partial : forall ops bytes,
+Theorem C13_success_gives_layout_witness : forall ops bytes,
   assemble ops = Ok bytes ->
   exists macros st w pos,
     declare_macros ops [] = Ok macros /\
@@ -41,7 +41,7 @@ Proof.
   pose proof (emit_each macros _ _ _ _ Hf) as Hall.
   eapply Forall_impl; [|exact Hall]. intros p [b Hb]. eapply emitted_in_range; exact Hb.
 Qed.
-Print Assumptions C13_success_implies_well_formed_partial.
+Print Assumptions C13_success_gives_layout_witness.
 
 (* EXACTLY WHEN, for the final phase: once the ops have been read (labels, macro expansion,
    early checks), assembly succeeds if and only if no used label is left undeclared and every
@@ -276,7 +276,7 @@ Check C13_expression_macro_missing_argument : forall labels macros f vs n args d
   macros n = Some (Some d) -> (length args < length (em_params d))%nat ->
   Forall2 (fun a v => eval labels macros (S f) vs a = Ok v) args vals ->
   eval labels macros (S f) vs (EMacro n args) = err1 "UndefinedVariable" (nth (length args) (em_params d) "").
-Check C13_success_implies_well_formed_partial : forall ops bytes,
+Check C13_success_gives_layout_witness : forall ops bytes,
   assemble ops = Ok bytes ->
   exists macros st w pos,
     declare_macros ops [] = Ok macros /\ push_inv st /\ a_undeclared st = [] /\
